@@ -540,6 +540,46 @@ def run(chk, tier, explicit=None):
     chk.cov["vm_compute_crosschecked"] = nvm
 
 
+def c06_builder(chk, tier, explicit=None):
+    """C06's environment clause where the list reaches the launch through the builder: env_extend with lists that
+    carry duplicate names, env() on a name that already occurs once or several times, in any order -- the child must
+    see exactly one entry per name with the value of the LATEST setting (the property's own words, computed here from
+    the edit list, and Lib/Builder.v + Lib/Env.v through the extracted model)"""
+    r = C.Rng(chk.seed * 4111 + 6)
+    if explicit is not None:
+        progs = explicit
+    else:
+        progs = []
+        names = [b"V", b"W", b"HOME"]
+        vals = [b"first", b"second", b"third", b""]
+        for i in range(60 if tier == "quick" else 600):
+            ops = []
+            if r.chance(1, 3):
+                ops.append(("env_clear",))
+            for _ in range(1 + r.below(5)):
+                if r.chance(1, 2):
+                    ops.append(("env_extend", [(r.choice(names), r.choice(vals)) for _ in range(1 + r.below(4))]))
+                else:
+                    ops.append(("env", r.choice(names), r.choice(vals)))
+            progs.append({"id": "c06-b%d" % i, "shell": None, "ops": ops, "t1": r.choice(["join", "popen", "capture"]), "t2": "join"})
+    scns = [scenario_of(p) for p in progs]
+    e2.run_scenarios(scns, "C06b")
+    good = [s for s in scns if not s.get("timed_out") and s.get("rc") == 0]
+    for s in scns:
+        if s not in good:
+            chk.violation("C06: the builder program did not complete: %s" % describe(s["prog"]), "builder\n" + prog_to_json(s["prog"]))
+    mlines = X.sppure([model_line(s, parent_base(s)) for s in good]) if good else []
+    nbad = 0
+    for s, ml in zip(good, mlines):
+        bad = [b for b in judge(chk, s, ml) if not b.startswith("TIE-ONLY")]
+        if bad:
+            nbad += 1
+            chk.violation("C06: %s [%s]" % ("; ".join(bad[:2]), describe(s["prog"])), "builder\n" + prog_to_json(s["prog"]))
+    chk.cov["evaluations"] = chk.cov.get("evaluations", 0) + len(scns)
+    chk.cov["traces_validated_against_impl"] = chk.cov.get("traces_validated_against_impl", 0) + len(good) - nbad
+    chk.cov["builder_env_programs"] = len(scns)
+
+
 def replay(chk, path):
     lines = [l.rstrip("\n") for l in open(path, encoding="utf-8") if l.strip() and not l.startswith("#")]
     run(chk, "quick", explicit=[prog_from_json(lines[0])])
